@@ -268,6 +268,67 @@ def r13_3(run):
            "DuplicatingGraph unreachable when TRACK_GRAPH is False" if not g0 else "graph duplication reachable with tracking off")
 
 
+def r13_5(run):
+    """single commit point: a public function that forwards its `out` target to several operations in sequence commits the first
+    write before the second can fail.  At most one call on any path may receive out=<the caller's target>."""
+    import networkx as nx
+    n = 0
+    for fi in run.project.all_functions():
+        if "out" not in fi.params() or fi.cls is not None:
+            continue
+        sites = [c for c in own_nodes(fi.node) if isinstance(c, ast.Call) and kw(c, "out") is not None and norm(kw(c, "out")) == "out"]
+        if len(sites) < 2:
+            continue
+        n += 1
+        cfg = build_cfg(run, fi)
+        nodes = [(c, cfg.stmt_node_containing(c)) for c in sites]
+        bad = None
+        for c1, n1 in nodes:
+            for c2, n2 in nodes:
+                if c1 is not c2 and n1 is not None and n2 is not None and n1 != n2 and n2 in nx.descendants(cfg.g, n1):
+                    bad = (c1, c2)
+        run.ob("R13.5", loc(fi, sites[0]), fi.short, f"at most one operation on any path writes into the caller's out= target ({len(sites)} candidate calls)", bad is None,
+               "the calls lie on mutually exclusive paths" if bad is None else
+               f"`{norm(bad[0])[:40]}` writes into `out` and `{norm(bad[1])[:40]}` can still fail afterwards: the failed call leaves the target half-updated")
+    run.count("public functions forwarding out= to several calls", n)
+    run.ob("R13.5", "mygrad", "mygrad", "functions that forward out= to more than one call were enumerated", True, f"{n} function(s)", nontrivial=False)
+
+
+def r13_6(run):
+    """what _in_place_op writes on the public target / its base *before* the fallible part must be put back by the failure handler"""
+    fi = anchor_func(run, INPLACE)
+    cfg = build_cfg(run, fi, switch_assumptions(fi, track=True), extra_raise=lambda c: isinstance(c.func, ast.Attribute) and c.func.attr == "_op")
+    kern = [c for c in calls_named(fi.node, "_op") if kw(c, "out") is not None and cfg.stmt_node_containing(c) is not None]
+    if not kern:
+        raise AnalysisError(f"{fi.short}: kernel call not found")
+    kn = cfg.stmt_node_containing(kern[0])
+    import networkx as nx
+    _anc = nx.ancestors(cfg.g, kn)
+    writes = []
+    for s in own_nodes(fi.node):
+        n_ = cfg.node_for(s) if isinstance(s, ast.stmt) else None
+        if n_ is None or not cfg.reachable(n_) or n_ == kn or n_ not in _anc:
+            continue
+        if isinstance(s, ast.Expr) and isinstance(s.value, ast.Call) and isinstance(s.value.func, ast.Attribute) and s.value.func.attr == "null_grad" \
+                and norm(s.value.func.value).startswith("self"):
+            writes.append((s, f"{norm(s.value.func.value)}.null_grad()"))
+        if isinstance(s, ast.Assign) and any(isinstance(t, ast.Attribute) and norm(t.value).startswith("self") and t.attr in ("_base", "_grad", "_view_grad", "_constant")
+                                             for t in s.targets):
+            writes.append((s, norm(s)[:40]))
+    hs = [h for h in cfg.g.successors(kn) if "exc" in cfg.g[kn][h]["kinds"] and h != RAISE]
+    handler_nodes = set()
+    for h in hs:
+        handler_nodes |= {h} | cfg.reachable_from(h)
+    restored = {norm(cfg.stmt[x]) for x in handler_nodes if x in cfg.stmt}
+    undone = any(("_grad" in t and "=" in t) or "restore_target_state" in t for t in restored)
+    run.ob("R13.6", loc(fi, writes[0][0] if writes else fi.node), fi.short,
+           "state of the target written before the kernel is restored when the kernel fails", (not writes) or undone,
+           "no pre-kernel write on the public tensors" if not writes else ("the handler restores it" if undone else
+           f"{[w for _s, w in writes]} run before the kernel; graph.restore_old_graph() puts the op wiring back but not these: a failed in-place update "
+           f"leaves the target (and its base) without gradient and a stale view without its base"))
+    run.count("pre-kernel writes on the in-place target", len(writes))
+
+
 def check(run):
     run.rule("R13.1", "Tensor._op (tracked): no write of input-tensor state (_grad/_view_grad/_base/_ops/_view_children) "
              "precedes a may-raise call", floor=4)
@@ -281,5 +342,9 @@ def check(run):
     r13_2(run)
     r13_3(run)
     r13_4(run)
+    run.rule("R13.5", "a public function commits at most one write into the caller's out= target per path", floor=1)
+    run.rule("R13.6", "_in_place_op: pre-kernel writes on the public target are undone on failure", floor=1)
+    r13_5(run)
+    r13_6(run)
     run.assume("may-raise = explicit `raise` reachable through resolved repo calls + the forward kernel invocation; failures "
                "inside NumPy after the kernel are assumed absent")
